@@ -180,13 +180,21 @@ def rewrite_client_hello(raw, how):
         changed = strip(ExtensionType.session_ticket)
     elif how == "strip-psk":
         changed = strip(ExtensionType.pre_shared_key)
+    elif how.startswith("downgrade-to-"):
+        # the classic version rollback: no supported_versions, lower legacy version
+        v = (3, int(how[-1]))
+        changed = strip(ExtensionType.supported_versions)
+        if ch.client_version != v:
+            ch.client_version = v
+            changed = True
     if not changed:
         return None
     return bytes(ch.write())
 
 
 REWRITES = ["strip-supported-versions", "lower-client-version", "strip-strong-suites", "first-suite-only", "strip-ems",
-            "strip-etm", "strip-alpn", "strip-sni", "strip-groups", "strip-rsl", "strip-sigalgs", "strip-ticket", "strip-psk"]
+            "strip-etm", "strip-alpn", "strip-sni", "strip-groups", "strip-rsl", "strip-sigalgs", "strip-ticket", "strip-psk",
+            "downgrade-to-3", "downgrade-to-2", "downgrade-to-1"]
 
 
 def flavours(tier):
@@ -194,7 +202,12 @@ def flavours(tier):
     fl = [F(3, "ecdhe_rsa"), F(4, "tls13"), F(3, "rsa"), F(1, "dhe_rsa"), F(4, "tls13", hrr=True), F(3, "ecdhe_rsa", resume="id"),
           F(0, "rsa"), F(3, "ecdhe_rsa", ticket=True, resume="ticket"), F(4, "tls13", resume="psk", tickets13=1),
           F(3, "srp_sha"), F(3, "ecdhe_ecdsa", reqCert="cert"), F(2, "dhe_dsa"), F(3, "ecdhe_rsa", ticket=True, npn=True)]
-    return fl
+    # endpoints that both support TLS 1.0 - 1.3 (the downgrade-protection scenarios need a version range)
+    rng = F(4, "tls13")
+    rng["range"] = True
+    rng2 = F(4, "tls13_ecdsa")
+    rng2["range"] = True
+    return fl + [rng, rng2]
 
 
 def scenario(fi, f):
@@ -205,6 +218,8 @@ def scenario(fi, f):
     if build(f)["kind"] == "cert":
         ck["alpn"] = [bytearray(b"http/1.1"), bytearray(b"h2")]
         sk["alpn"] = [bytearray(b"h2"), bytearray(b"http/1.1")]
+    if f.get("range"):
+        return Scenario(f, "c04-%d" % fi, cextra=dict(minVersion=(3, 1)), sextra=dict(minVersion=(3, 1)), ckw_extra=ck, skw_extra=sk)
     return Scenario(f, "c04-%d" % fi, ckw_extra=ck, skw_extra=sk)
 
 
@@ -250,6 +265,23 @@ def reference(job):
         return fi, {"crash": traceback.format_exc()}
 
 
+def _sh_version(wire):
+    """protocol version (minor) selected by the first ServerHello delivered to the client; -1 if there is none"""
+    from tlslite.messages import ServerHello
+    from tlslite.utils.codec import Parser
+    from tlslite.constants import ExtensionType
+    if len(wire) < 10 or wire[0] != 22 or wire[5] != 2:
+        return -1
+    ln = (wire[3] << 8) | wire[4]
+    try:
+        sh = ServerHello().parse(Parser(bytearray(wire[6:5 + ln])))
+    except Exception:
+        return -1
+    ext = sh.getExtension(ExtensionType.supported_versions)
+    v = ext.version if ext is not None and getattr(ext, "version", None) else sh.server_version
+    return v[1] if v[0] == 3 else -1
+
+
 def attack(job):
     fi, f, d, nplain, op, tag = job
     try:
@@ -263,7 +295,11 @@ def attack(job):
         st, co, so = p.run(cgen, sgen, max_steps=60000)
         both = bool(co.ok and so.ok)
         applied = (mc if d == "c2s" else ms).applied
+        from tlslite.errors import TLSLocalAlert
+        from tlslite.constants import AlertDescription
+        clocal = AlertDescription.toStr(co.exc.description) if isinstance(co.exc, TLSLocalAlert) else ""
         res = {"ev": "RES", "both": both, "c_out": co.describe(), "s_out": so.describe(), "applied": bool(applied),
+               "cSawVer": _sh_version(bytes(p.s2c.dlv_log)), "cLocal": clocal,
                "bodyTamper": bool(applied and op["kind"] in ("tamper", "rewrite") and tag.get("body", True)),
                "c": {}, "s": {}}
         if both:
